@@ -9,8 +9,8 @@ var formatTable = map[string]struct{ valid, invalid []string }{
 	"uuid":      {[]string{"123e4567-e89b-42d3-a456-426614174000"}, []string{"123e4567-e89b-42d3-a456-42661417400g", "123e4567"}},
 	"email":     {[]string{"joe@example.com"}, []string{"joe.example.com", "joe@"}},
 	"hostname":  {[]string{"example.com", "a-b.example.org"}, []string{"exa_mple..com"}},
-	"ipv4":      {[]string{"192.168.0.1", "0.0.0.0"}, []string{"256.1.1.1", "1.2.3", "::1"}},
-	"ipv6":      {[]string{"::1", "2001:db8::8a2e:370:7334"}, []string{"1.2.3.4", "2001:db8::g"}},
+	"ipv4":      {[]string{"192.168.0.1", "0.0.0.0"}, []string{"256.1.1.1", "1.2.3", "::1", "::ffff:10.0.0.1"}},
+	"ipv6":      {[]string{"::1", "2001:db8::8a2e:370:7334", "::ffff:10.0.0.1"}, []string{"1.2.3.4", "2001:db8::g"}},
 	"ip":        {[]string{"10.0.0.1", "::1"}, []string{"10.0.0.256", "nope"}},
 	"uri":       {[]string{"http://example.com/a?b=c", "urn:isbn:0451450523"}, []string{"://missing-scheme"}},
 	"mac":       {[]string{"01:23:45:67:89:ab", "01-23-45-67-89-ab"}, []string{"01:23:45:67:89:zz", "0123"}},
